@@ -1,4 +1,5 @@
-import PwVerif.Lemmas.Pool
+import PwVerif.Lemmas.PoolRuns
+import PwVerif.Gen.PoolReset
 /-!
 # C09 — no worker outlives its pool; a pool stays usable across runs and restarts
 
@@ -58,5 +59,41 @@ theorem C09_closed_holds_nothing (c : Cfg) (hc : Plain c) (pick : List Nat → O
     (n : Nat) (src : List Inp) (pre evs : List Ev) :
     ∀ x ∈ (runEvents c pick (start c pick n src pre) evs).ws, x.closed = true → x.ppw = [] :=
   fun x hx => ((inv_runEvents hc hp evs _ (inv_start hc hp n src pre)).ws x hx).closed_
+
+/-! ### consecutive runs -/
+
+/-- **each run's results correspond to that run's inputs only.** After a run that returned normally, whatever
+    happens to the workers in between (`pre`), the next `run()` - whose bookkeeping is re-initialised as
+    `Gen.poolReset` (regenerated from /repo) says - returns, if it returns, exactly one result per input of
+    *its own* input sequence, under every schedule: nothing of the previous run leaks into it. By induction
+    this holds for every later run of a chain of successful runs (`C09_chain`). -/
+theorem C09_runs_independent (c : Cfg) (hc : Plain c) (pick : List Nat → Option Nat) (hp : PickOK pick)
+    (src0 : List Inp) (s : St) (ret : List Inp) (hinv : Inv src0 [] s) (hret : outcome s = .returned ret)
+    (src' : List Inp) (pre evs : List Ev) (ret' : List Inp)
+    (h : outcome (runEvents c pick (nextRun c pick Gen.poolReset s src' pre) evs) = .returned ret') :
+    ret'.Perm src' :=
+  perm_of_inv_returned (inv_runEvents hc hp evs _ (inv_nextRun hc hp hinv hret Gen.poolReset (by decide) src' pre)) h
+
+/-- the regenerated prologue of `Pool.run` re-initialises every bookkeeping field -/
+theorem C09_reset_complete : Gen.poolReset.all = true := by decide
+
+/-- a chain of runs: both invariants of the first run carry over to every later one, hence so do all the
+    theorems of C07 / C08 (exactly once, PoolError only when every worker is closed, no internal error) -/
+theorem C09_chain (c : Cfg) (hc : Plain c) (pick : List Nat → Option Nat) (hp : PickOK pick) (ht : PickTotal pick)
+    (src0 : List Inp) (s : St) (ret : List Inp) (hinv : Inv src0 [] s) (hret : outcome s = .returned ret)
+    (src' : List Inp) (pre evs : List Ev) :
+    Inv src' [] (runEvents c pick (nextRun c pick Gen.poolReset s src' pre) evs) ∧
+    K (runEvents c pick (nextRun c pick Gen.poolReset s src' pre) evs) :=
+  ⟨inv_runEvents hc hp evs _ (inv_nextRun hc hp hinv hret Gen.poolReset (by decide) src' pre),
+   K_runEvents hc hp ht evs _ (K_nextRun hc hp Gen.poolReset s src' pre)⟩
+
+/-- without re-initialising the retry list (seeded change C09-C) an input left over by an earlier, failed run is
+    served in the next one: the results no longer correspond to that run's inputs -/
+theorem C09_counterexample_stale_retries :
+    let s1 := runEvents {} pickFirst (start {} pickFirst 1 [7]) [.die 0 true, .poll [0]]       -- PoolError, 7 left in the retry list
+    let s1' : St := { s1 with ws := [{}] }                                                       -- restart_workers(): a fresh worker
+    let r : ResetCfg := { Gen.poolReset with retries := false }
+    outcome (runEvents {} pickFirst (nextRun {} pickFirst r s1' [1]) [.work 0, .poll [0], .work 0, .poll [0]]) = .returned [7, 1] := by
+  decide +kernel
 
 end PwVerif.C09
